@@ -85,17 +85,70 @@ def decorate(rng, natoms, ntypes):
 
 
 ORIGINS4 = ('zero', 'small', 'near', 'far')
+# 'lattice': the cell corner sits on a non-zero lattice point (every frame reading of "maps through the rotation"
+# coincides there); 'small' / 'near' / 'far' are generic NON-lattice vectors of growing size (the readings differ)
+ORIGINS5 = ('zero', 'lattice', 'small', 'near', 'far')
 
 
 def origin_cell(rng, kind, origin_class, scale=1.0):
-    """cells.gen_cell plus the origin class 'small': the Cartesian origin lies within
-    0.9 cell vectors of the cell corner along every axis."""
-    if origin_class != 'small':
+    """cells.gen_cell plus the origin classes 'small' (the Cartesian origin lies within 0.9 cell
+    vectors of the cell corner along every axis, generic) and 'lattice' (the corner is a non-zero
+    integer combination of the cell vectors, up to 3 cells away)."""
+    if origin_class not in ('small', 'lattice'):
         return cells.gen_cell(rng, kind, origin_class, scale)
     c = cells.gen_cell(rng, kind, 'zero', scale)
-    c['origin'] = rng.uniform(-0.9, 0.9, 3) @ c['vects']
-    c['origin_class'] = 'small'
+    if origin_class == 'small':
+        c['origin'] = rng.uniform(-0.9, 0.9, 3) @ c['vects']
+    else:
+        n = np.zeros(3)
+        while not np.any(n):
+            n = rng.integers(-3, 4, 3).astype(float)
+        c['origin'] = n @ c['vects']
+    c['origin_class'] = origin_class
     return c
+
+
+def lattice_offset(vects, origin):
+    """Distance (in cell fractions, max over axes) of the cell corner from the nearest lattice point
+    of the lattice through the Cartesian origin: 0 means the frame readings 'plain rotation about 0'
+    and 'rotation about the cell corner' cannot be told apart."""
+    s = np.linalg.solve(np.asarray(vects, float).T, np.asarray(origin, float))
+    return float(np.abs(s - np.rint(s)).max())
+
+
+MIRRORS = ('lh-a', 'lh-b', 'lh-c', 'lh-all')
+
+
+def mirror_description(u, how):
+    """The SAME infinite crystal (same Cartesian atom positions modulo the same lattice) described by a
+    LEFT-HANDED cell: the cell vector(s) named by ``how`` ('lh-a', 'lh-b', 'lh-c', 'lh-all') are reversed and
+    the cell corner is moved to the far end of the reversed vectors, so the new cell covers the same region
+    of space.  Relative coordinates along a reversed axis become 1 - s (0 stays 0: that atom is moved by one
+    lattice vector, which leaves the crystal unchanged), so atoms on faces stay on (low) faces and every atom
+    stays inside the cell.  Works for dicts from gen_unit_cell, gen_conventional and primitive_of."""
+    axes = {'lh-a': [0], 'lh-b': [1], 'lh-c': [2], 'lh-all': [0, 1, 2]}[how]
+    v = np.array(u['vects'], float)
+    o = np.array(u['origin'], float)
+    rel = np.array(u['rel'], float)
+    for ax in axes:
+        o = o + v[ax]
+    for ax in axes:
+        v[ax] = -v[ax]
+        r = 1.0 - rel[:, ax]
+        r[rel[:, ax] == 0.0] = 0.0
+        rel[:, ax] = r
+    out = dict(u)
+    out.update(vects=v, origin=o, rel=rel, pos=G.cart(rel, v, o), hand=how)
+    return out
+
+
+def mirror_uvws(M, how):
+    """Components, along the cell vectors of ``mirror_description(u, how)``, of the lattice vectors whose
+    components along the cell vectors of ``u`` are the rows of M (columns of the reversed axes change sign)."""
+    M = np.array(M).copy()
+    for ax in {'lh-a': [0], 'lh-b': [1], 'lh-c': [2], 'lh-all': [0, 1, 2]}[how]:
+        M[:, ax] = -M[:, ax]
+    return M
 
 
 def gen_unit_cell(rng, kind, origin_class, scale, natoms, ntypes, pos_class):
@@ -232,6 +285,26 @@ def sample_matrix(rng, bound, want_sign=0, max_det=None):
             continue
         return m
     raise RuntimeError('matrix')
+
+
+# the seven ways of re-describing a vector set by the same three lattice vectors (up to sign and order) with
+# the OPPOSITE handedness: one vector reversed, two vectors exchanged, all three reversed
+FLIPS = ('neg-row0', 'neg-row1', 'neg-row2', 'swap01', 'swap12', 'swap02', 'neg-all')
+
+
+def flip_handedness(M, flip):
+    M = np.array(M).copy()
+    if flip.startswith('neg-row'):
+        k = int(flip[-1])
+        M[k] = -M[k]
+    elif flip.startswith('swap'):
+        j, k = int(flip[-2]), int(flip[-1])
+        M[[j, k]] = M[[k, j]]
+    elif flip == 'neg-all':
+        M = -M
+    else:
+        raise ValueError(flip)
+    return M
 
 
 def coplanar_matrix(rng, bound=2):
